@@ -1,4 +1,4 @@
-from copy import deepcopy
+from copy import copy
 from typing import TYPE_CHECKING
 
 from .callbacks import CallbackGroup
@@ -141,7 +141,7 @@ class Transition:
             source=source, target=target, event=event, internal=internal, **kwargs
         )
         for spec in self._specs:
-            new_spec = deepcopy(spec)
+            new_spec = copy(spec)
             new_transition._specs.add(new_spec, new_spec.group)
 
         return new_transition
